@@ -18,7 +18,7 @@ class FrameParser:
 
         frame_length_byte_count = header_length
 
-        while total >= frame_length_byte_count:
+        while total >= frame_length_byte_count and total > 0:
             if header_length > 0:
                 length = struct.unpack('>I', b'\x00' + self._buffer[:frame_length_byte_count])[0]
             else:
